@@ -512,7 +512,7 @@ pub fn run_case(out: &mut Out, rng: &mut Rng, thorough: bool, case_no: u64) {
     let t2 = std::time::Instant::now();
     let world = World::new(network, rng);
     out.count_n("time_us:world-new", t2.elapsed().as_micros() as u64);
-    let mut st = Sync { case: Case { walk: None, world, alive: vec![0], network, thr, mode: DiffMode::Small }, pending: vec![], undelivered: vec![], now: 2_000_000_000 };
+    let mut st = Sync { case: Case { pre_ingest: None, walk: None, world, alive: vec![0], network, thr, mode: DiffMode::Small }, pending: vec![], undelivered: vec![], now: 2_000_000_000 };
     let t3 = std::time::Instant::now();
     c::fresh_init(network, thr as u128, fees.clone());
     out.count_n("time_us:fresh-init", t3.elapsed().as_micros() as u64);
